@@ -9,9 +9,10 @@
      LResolved e nb  TypedContent.resolved_cache[nb] of schema object e   (sxbasic.py)
      LFactory k      sudsobject.Factory.cache[k]                           (sudsobject.py)
      LMrNodes o / LMrCatalog o   MultiRef.nodes / MultiRef.catalog of the MultiRef object o
-     LProxy c        the attributes the transport of client c re-assigns at every request with values
+     LProxy c        the state the transport of client c (re-)assigns at every request with values
                      determined by its own options: HttpTransport.proxy (transport/http.py: send) and
-                     HttpAuthenticated.pm (transport/https.py: addcredentials); read by u2handlers
+                     the entries pm.passwd[realm][uri] = (username, password) of its password manager
+                     (transport/https.py: addcredentials); read by u2handlers / the auth handler
      LClassAttr k a  a cell owned by a class or a module of suds: class attribute a of class k,
                      an entry of a class-level dictionary or list, a module global (other than
                      sudsobject.Factory.cache, which is LFactory)
